@@ -14,7 +14,7 @@ CLAIMED = {
     "C04": {
         "technique": "deterministic simulation with fault injection: seeded fault plans (torn/flipped/zeroed/duplicated bytes, stale/empty/missing files, directories for files, failing os calls, record-level corruption, HTTP status/body faults, cancellation, stream errors and short reads) drawn after a fault-free dry run and injected into simulated runs of every public entry point, under seeded map-order schedules, a tick clock (deterministic hang verdict) and a call-depth budget; fault/workload minimisation and replay; worker death re-executed in isolation",
         "text": "Seeded search over fault sequences and generated inputs/configurations; the oracle is only 'the call returns'. The statement quantifies over all byte sequences: this family reaches that set only through corruptions of well-formed documents and unusual-but-valid generated shapes, a weak decision procedure for deep structural cases (DESIGN.md §5 C04).",
-        "note": "Crashes are keyed by class + innermost cog function (package for runaway recursion and hangs); 32 crash sites that exist on the unchanged tree are listed in known_findings.json and 45 were repaired. A new crash in a function that already has a listed crash of the same class is masked. Hangs inside uninstrumented libraries are caught by a wall-clock/memory watchdog and confirmed in a fresh process.",
+        "note": "Crashes are keyed by class + innermost cog function (package for runaway recursion and hangs); 33 crash sites that exist on the unchanged tree are listed in known_findings.json and 45 were repaired. A new crash in a function that already has a listed crash of the same class is masked. Hangs inside uninstrumented libraries are caught by a wall-clock/memory watchdog and confirmed in a fresh process.",
         "design_ref": "DESIGN.md §5 C04",
     },
     "C05": {
